@@ -104,3 +104,19 @@ void h_K_fan_ctor(void)
   g_ra = nondet_int(); g_a = nondet_int(); g_rb = nondet_int(); g_n1 = 0; g_n2 = 0; g_n3 = 0;
   K_fan_ctor(s, nondet_int(), nondet_int(), nondet_int(), nondet_int());
 }
+
+/* ---- GeoData3D ---- */
+#define CONTRACT_K_geo_select_nc CONTRACT_K_geo_select
+#include "K_geo_select.c"
+#include "K_geo_select_nc.c"
+#include "K_geo_is_in_data.c"
+#include "K_geo_ctor.c"
+void h_K_geo_is_in_data(void) { struct GEO* s; K_geo_is_in_data(s, nondet_int(), nondet_int(), nondet_int(), nondet_int()); }
+void h_K_geo_select(void) { struct GEO* s; g_cells = 0; K_geo_select(s, nondet_int(), nondet_int(), nondet_int(), nondet_int()); }
+void h_K_geo_select_nc(void) { struct GEO* s; g_cells = 0; K_geo_select_nc(s, nondet_int(), nondet_int(), nondet_int(), nondet_int()); }
+void h_K_geo_ctor(void)
+{
+  struct GEO* s;
+  g_ra = nondet_int(); g_a = nondet_int(); g_rb = nondet_int(); g_n1 = 0; g_n2 = 0; g_n3 = 0;
+  K_geo_ctor(s, nondet_int(), nondet_int(), nondet_int(), nondet_int());
+}
